@@ -135,6 +135,7 @@ def purge_modules():
         del sys.modules[k]
 
 
+@faults.guarded()
 def sign_file(src, dst, key, kid, alg, keysdir, action="error", route="cmd", workdir=None):
     """-> drive.Outcome (value = output bytes)"""
     try:
